@@ -253,8 +253,10 @@ RealVector otherStart(Case const& c) {
 std::string doSave(Case& c) {
 	bool keepInexact = g_inexact;
 	c.b.reset(make(c.cfg, false));
-	initOpt(c.cfg, *c.b, *c.f, otherStart(c), false);
-	c.b->step(*c.f); c.b->step(*c.f);
+	try {
+		initOpt(c.cfg, *c.b, *c.f, otherStart(c), false);
+		c.b->step(*c.f); c.b->step(*c.f);
+	} catch (std::exception const& e) { throw std::runtime_error(std::string("fresh-instance-warmup: ") + e.what()); }
 	std::stringstream ss(std::ios::in | std::ios::out | std::ios::binary);
 	{ boost::archive::polymorphic_text_oarchive oa(ss); c.a->write(oa); }
 	{ boost::archive::polymorphic_text_iarchive ia(ss); c.b->read(ia); }
